@@ -23,9 +23,10 @@ Theorem C10_no_valid_mac1_silent_inert : forall st now m q al nonce body,
 Proof. exact no_valid_mac1_silent_inert. Qed.
 Print Assumptions C10_no_valid_mac1_silent_inert.
 
-(* ... hence in every history such a datagram can be erased without any effect. *)
+(* ... hence in every history such a datagram (no valid MAC1 for the identity the device has at that moment —
+   the identity may have been changed or removed through UAPI on the way) can be erased without any effect. *)
 Theorem C10_stranger_datagram_erasable : forall st pre post now m q al nonce body,
-  gate m = false \/ (is_hs m = true /\ check_mac1 (d_pk st) m = false) ->
+  gate m = false \/ (is_hs m = true /\ check_mac1 (d_pk (final step st pre)) m = false) ->
   final step st (pre ++ ERecv now m q al nonce body :: post) = final step st (pre ++ post) /\
   outs step st (pre ++ ERecv now m q al nonce body :: post) =
     outs step st pre ++ [] :: outs step (final step st pre) post.
@@ -188,6 +189,20 @@ Theorem C10_still_under_load_after_last_detection : forall st now m al nonce bod
   under_load (fst (step st (ERecv now m true al nonce body))) now2 false = true.
 Proof. exact still_under_load_after_last_detection. Qed.
 Print Assumptions C10_still_under_load_after_last_detection.
+
+(* Identity change or removal (UAPI private_key=): from then on only MAC1 under the NEW key counts — a message
+   with MAC1 for the previous key is met with silence in every load state — and the cookie secret counts as not
+   drawn, so no cookie issued under the previous identity is accepted. *)
+Theorem C10_old_identity_mac1_rejected : forall st now k now2 m q al nonce body,
+  is_hs m = true -> check_mac1 k m = false ->
+  step (fst (step st (ESetIdentity now k))) (ERecv now2 m q al nonce body) = (fst (step st (ESetIdentity now k)), []).
+Proof. exact old_identity_mac1_rejected. Qed.
+Print Assumptions C10_old_identity_mac1_rejected.
+
+Theorem C10_identity_change_voids_cookies : forall st now k now2 m,
+  check_mac2 (fst (step st (ESetIdentity now k))) now2 m = false.
+Proof. exact identity_change_voids_cookies. Qed.
+Print Assumptions C10_identity_change_voids_cookies.
 
 (* Non-vacuity: under forced load an initiation with valid MAC1 and zero MAC2 from 192.0.2.7:5555
    (address 1) gets a cookie reply; the same initiation with MAC2 under that cookie gets the
